@@ -18,9 +18,10 @@ def cfg(persistent=True, always=False, wait=2, ips=True):
 
 def models(tier):
     out = []
-    alpha = [("tick", 1), ("plan", "refused"), ("plan", "inprogress"), ("send", 0, "own")]
+    alpha = [("tick", 1), ("plan", "refused"), ("plan", "inprogress"), ("send", 0, "own"), ("accept",)]
     for c in (0, 1):
         alpha += [("m", c, "cea_ok"), ("m", c, "cea_3xxx"), ("m", c, "dpr"), ("eof", c), ("rst", c), ("resolve", c, True), ("resolve", c, False)]
+    alpha += [("m", 1, "cer_p0"), ("m", 2, "cer_p0"), ("eof", 2)]
     variants = [(True, False, 2), (True, True, 2), (True, False, 3)]
     if tier == "thorough":
         variants += [(True, True, 3)]
@@ -28,6 +29,11 @@ def models(tier):
         for plan in ("ok", "refused", "inprogress") if tier == "thorough" or (always, wait) == (False, 2) else ("ok",):
             out.append(monitors.ScenarioModel(f"persistent-always={always}-wait={wait}-start={plan}", cfg(persistent, always, wait), alpha, MONS,
                                               max_socks=3, start_plan=[plan]))
+    # a DWR is outstanding when the DPR arrives; the late DWA must not put the connection back into service
+    wd = cfg(True, False, 5)
+    wd["node"].update({"idle_timeout": 2, "dwa_timeout": 4})
+    out.append(monitors.ScenarioModel("dpr-while-awaiting-DWA", wd, [("m", 0, "dpr"), ("m", 0, "dwa"), ("send", 0, "own"), ("tick", 1), ("m", 0, "dwr")],
+                                      MONS, max_socks=1, start_plan=["ok"], prelude=[("m", 0, "cea_ok"), ("tick", 3)]))
     # non-persistent peer and persistent peer without addresses: connect inbound, lose the connection, never dialled
     for name, c in (("non-persistent", cfg(False, False, 2)), ("persistent-without-addresses", cfg(True, True, 2, ips=False))):
         a2 = [("tick", 1), ("accept",)]
@@ -42,12 +48,68 @@ def models(tier):
     return out
 
 
+# ------------------------------------------------------------------ E4: stop() racing with a due reconnect
+def sched_execute(variant, prefix):
+    """A persistent peer was lost and its reconnect is due at this instant; stop() starts in another thread at the same
+    instant.  All interleavings (bounded) at line granularity inside _reconnect_peers/_connect_to_peer/_add_peer_connection/stop."""
+    from .. import scenario, scheddfs, simkernel as sk
+    import diameter.node.node as nn
+    sk.install()
+    sk.set_line_points({sk.code_of(nn.Node, "_reconnect_peers"): None, sk.code_of(nn.Node, "_connect_to_peer"): None,
+                        sk.code_of(nn.Node, "_add_peer_connection"): None, sk.code_of(nn.Node, "stop"): None})
+    ch = scheddfs.Chooser(prefix)
+    c = cfg(True, False, 2)
+    sc = scenario.Scenario(c, chooser=ch, max_socks=3, start_plan=["ok"])
+    try:
+        nw = sc.start()
+        mons = [m(sc) for m in MONS]
+        vs = []
+        for ev in (("m", 0, "cea_ok"), ("eof", 0), ("tick", 1)):
+            sc.apply(ev)
+            for m in mons:
+                vs += m.step()
+        nw.world.jump(1)            # reconnect_wait has elapsed: the I/O thread's next wake-up dials
+        nw.world.points_on = True
+        ch.window = True
+        sc.apply(("stop", variant == "force", 2))
+        ch.window = False
+        nw.world.points_on = False
+        for m in mons:
+            vs += m.step()
+        for _ in range(4):
+            sc.apply(("tick", 1))
+            for m in mons:
+                vs += m.step()
+        dialled = [(s.sid, s.created_while, s.connect_called) for s in nw.world.socks if s.kind == "dialled" or s.connect_called]
+        obs = (variant, tuple(sorted(set(k for k, d in vs))), tuple(dialled), tuple(nw.thread_failures()))
+        return (obs, tuple(vs)), ch
+    finally:
+        sc.close()
+
+
+def sched_check(obs_vs):
+    obs, vs = obs_vs
+    return [(k + ":under-some-schedule", d) for k, d in vs]
+
+
 def run(tier):
     rep = Report("C12", tier, "model_checking")
     common.pool()
-    depth = 8 if tier == "thorough" else 6
+    import functools
+    from .. import scheddfs
+    bound = 2 if tier == "thorough" else 1
+    sched = 0
+    tasks = [(functools.partial(sched_execute, v), sched_check, bound) for v in ("graceful", "force")]
+    for v, r in zip(("graceful", "force"), scheddfs.explore_many(tasks)):
+        sched += r["executions"]
+        for (key, detail), choices in r["violations"]:
+            rep.add(Violation(key, f"[stop({v}) racing with a due reconnect, bound {bound}] choices {choices}: {detail}", {"sched": v, "choices": choices}))
+        rep.sample({"schedule_exploration": f"stop({v}) vs the I/O thread's due reconnect at line granularity", "preemption_bound": bound,
+                    "executions": r["executions"], "distinct_outcomes": len(r["outcomes"]), "branching_points": r["max_points"]})
+    rep.cov["schedules"] = sched
+    depth = 8 if tier == "thorough" else 5
     tot = monitors.run_models(rep, models(tier), depth, dedup_depth_plain=depth - 3, time_cap=1800 if tier == "thorough" else 110)
-    rep.cov.update({"states": tot["states"], "transitions": tot["transitions"], "traces_validated_against_impl": tot["transitions"] + tot["plain_transitions"],
+    rep.cov.update({"states": tot["states"], "transitions": tot["transitions"], "traces_validated_against_impl": tot["transitions"] + tot["plain_transitions"] + sched,
                     "max_depth": tot["max_depth"], "states_without_dedup": tot["plain_states"],
                     "explanation": "BFS over histories of dial outcomes {ok, refused, in progress -> ok/fail}, CEA {2001, rejected, none -> timeout}, DPR, eof, "
                                    "reset, send_request probes and 1 s ticks for peers persistent x always_reconnect x reconnect_wait {2,3} x with/without "
